@@ -840,7 +840,7 @@ func (s *spec) Step(w *engine.World, ctx sdk.Context, mm engine.Model, ev string
 	default:
 		panic("unknown event " + ev)
 	}
-	if parts[0] != "block" {
+	if parts[0] != "block" && parts[0] != "dkgfast" { // dkgfast contains block ends, each checked by oneBlock
 		if cCur := uint64(bk.GetCurrentGroup(ctx).GroupID); cCur != pCur {
 			st.Violate("group-changed-outside-block-end", "current group %d -> %d by %s", pCur, cCur, ev)
 		}
